@@ -42,7 +42,7 @@ ALG_THMS = ("Thm_XorIsBitwise Thm_FieldInverse Thm_GMulCommutes Thm_GMulExample 
             "Thm_ShiftRows Thm_MixColumns Thm_Rcon").split()
 KAT_INVS = "Inv_KeyExpansion Inv_Cipher Inv_DecryptInvertsEncrypt".split()
 MODE_INVS = ("Thm_Pad Thm_ValidPadRejects Inv_ModeKnownAnswer Inv_ModeDecryptInvertsEncrypt Inv_WrapStream "
-             "Inv_WrapRoundTrip Inv_Rejects Inv_NoSpuriousReject Inv_Termination").split()
+             "Inv_WrapRoundTrip Inv_ObjectOwnKey Inv_Rejects Inv_NoSpuriousReject Inv_Termination").split()
 
 
 def _cfg(spec, invs, dev="{}"):
@@ -66,6 +66,8 @@ def _spec_theorems(ctx):
          _cfg("KatSpec", KAT_INVS, '{"NoSubWord256"}'), "Inv_"),
         ("sensitivity: deviation CbcChainPlain breaks the CBC known answers", "AESModesKat",
          _cfg("KSpec", ["Inv_ModeKnownAnswer"], '{"CbcChainPlain"}'), "Inv_ModeKnownAnswer"),
+        ("sensitivity: deviation SharedWrapperKey (key shared by all wrapper objects) breaks Inv_ObjectOwnKey",
+         "AESModesKat", _cfg("KSpec", ["Inv_ObjectOwnKey"], '{"SharedWrapperKey"}'), "Inv_ObjectOwnKey"),
     ]
     if ctx.thorough:
         jobs += [
@@ -86,7 +88,7 @@ def _spec_theorems(ctx):
         return job, run_tlc(spec, cfg, scratch=ctx.scratch, workers=2, timeout=900,
                             expect_fail=must_fail is not None)
 
-    with ThreadPoolExecutor(max_workers=6) as ex:
+    with ThreadPoolExecutor(max_workers=7) as ex:
         results = list(ex.map(one, jobs))
     for (name, spec, cfg, must_fail), r in results:
         if must_fail is None:
@@ -155,7 +157,11 @@ def _describe(t, reached):
     if reached >= len(evs):
         return "trace ends before the specification's call is complete", {}
     e = evs[reached]
-    call = next((x for x in evs if x["a"] == "Call"), None)
+    call = next((x for x in reversed(evs[:reached + 1]) if x["a"] == "Call"), None) or \
+        next((x for x in evs if x["a"] == "Call"), None)
+    if call is not None and call.get("obj"):
+        own = next((x["key"] for x in evs if x["a"] == "New" and x["obj"] == call["obj"]), [])
+        call = dict(call, key=own)
     ctxd = {}
     if call is not None:
         ctxd = {"fn": call["fn"], "key": _hex(call["key"]), "iv": _hex(call["iv"]), "data": _hex(call["data"])}
@@ -191,6 +197,11 @@ def _describe(t, reached):
         what = "stream wrapper handed other arguments to the CBC layer than key / IV / padded message"
     else:
         what = f"event {a} not accepted"
+    if t["hdr"].get("fn") == "wrap_history":
+        objs = {x["obj"]: _hex(x["key"]) for x in evs[:reached + 1] if x["a"] == "New"}
+        what = (f"history with {len(objs)} live CryptAES objects: the call on object {call.get('obj') if call else '?'} "
+                f"is not what the specification gives under the key of ITS OWN object: " + what)
+        return what, {"call": ctxd, "objects": objs, "event_index": reached, "event": obs}
     if t["hdr"].get("binding"):
         what = (f"{t['hdr']['binding']} (installed by patch_pypdf_fallback_aes) does not behave as the function "
                 f"its name promises ({t['hdr']['fn']}): " + what)
@@ -283,6 +294,7 @@ def run(ctx):
                       "calls": stats["calls"], "rejections_expected": stats["bad_calls"],
                       "wrapper_lengths": stats["wrapper_lengths"],
                       "hostile_plaintexts": stats.get("hostile_plaintexts", 0), "key_sizes": [16, 24, 32],
+                      "object_histories": stats.get("object_histories", 0),
                       "pypdf_bindings_driven": stats.get("bindings", []),
                       "pypdf_bindings_changed_but_not_modelled": stats.get("bindings_not_modelled", [])})
     ev.assume("FIPS-197 / SP 800-38A known answers and the affine map were transcribed by hand into AESVectors.tla / "
@@ -468,9 +480,28 @@ class Recorder:
         self.log.append({"a": "Ret", "out": o} if o is not None else {"a": "BadRet", "type": type(out).__name__})
         return out if o is not None else None
 
+    # ---- histories over several live wrapper objects (one trace = the whole history, the log is not reset)
+    def new_obj(self, cls, oid, key):
+        self.log.append({"a": "New", "obj": oid, "key": list(key)})
+        return cls(key)
+
+    def call_obj(self, inst, oid, fn, data):
+        self.log.append({"a": "Call", "fn": fn, "obj": oid, "key": [], "iv": [], "data": list(data)})
+        self.depth = 1
+        try:
+            out = inst.encrypt(data) if fn == "wrap_enc" else inst.decrypt(data)
+        except Exception as e:
+            self.log.append({"a": "Raise", "exc": type(e).__name__})
+            return None
+        finally:
+            self.depth = 0
+        o = _bl(out)
+        self.log.append({"a": "Ret", "out": o} if o is not None else {"a": "BadRet", "type": type(out).__name__})
+        return out if o is not None else None
+
     def call_wrap(self, cls, fn, key, data):
         self.begin()
-        self.log.append({"a": "Call", "fn": fn, "key": list(key), "iv": [], "data": list(data)})
+        self.log.append({"a": "Call", "fn": fn, "obj": 0, "key": list(key), "iv": [], "data": list(data)})
         self.depth = 1
         try:
             obj = cls(key)
@@ -910,6 +941,71 @@ def _worker(job):
         finally:
             for n, o in saved.items():
                 setattr(_encm, n, o)
+
+    # ---- histories with SEVERAL LIVE wrapper objects: different keys, mixed key sizes, the same key twice,
+    # construction and use interleaved; every call is validated against the specification under the key of ITS
+    # OWN object (AESModes!objs: object id -> key), streams are also decrypted by another object of the same key
+    classes = []
+    for mn, n in cls_bindings or [("_crypt_providers._fallback", "CryptAES")]:
+        c = getattr(pymods[mn], n)
+        if not any(c is x for _, x in classes):
+            classes.append((f"pypdf.{mn}.{n}", c))
+    n_hist = 12 if thorough else 4
+    stats["object_histories"] = 0
+    for hi in range(n_hist):
+        bname, cls = classes[hi % len(classes)]
+        rec.begin()
+        b0 = rec.blocks
+        live = {}                     # oid -> (instance, key)
+        streams = []                  # (key, stream, message) produced so far
+        next_id = 1
+
+        def construct(key):
+            nonlocal next_id
+            oid = next_id
+            next_id += 1
+            live[oid] = (rec.new_obj(cls, oid, key), key)
+            return oid
+
+        k_a, k_b = pick_key(sizes[hi % 3]), pick_key(sizes[(hi + 1) % 3])      # mixed sizes
+        k_c = rb(len(k_a))                                                      # same size as k_a, other key
+        construct(k_a)
+        construct(k_b)                # a younger object with another key is alive from now on
+        plan = ["use", "use", "new", "use", "use", "newsame", "use", "use"] + (["new", "use", "use", "use"] if thorough else [])
+        ok = True
+        for step in plan:
+            if step == "new":
+                construct(rng.choice([k_c, pick_key()]))
+            elif step == "newsame":
+                construct(rng.choice([k for _, k in live.values()]))           # the same key twice
+            else:
+                # prefer an object that is NOT the most recently constructed one
+                oids = sorted(live)
+                oid = rng.choice(oids[:-1]) if rng.random() < 0.7 else oids[-1]
+                inst, key = live[oid]
+                mine = [t for t in streams if t[0] == key]
+                if mine and rng.random() < 0.5:
+                    if rec.call_obj(inst, oid, "wrap_dec", mine[-1][1]) is None:
+                        ok = False
+                else:
+                    m = rng.choice(hostile(rng.choice([5, 13, 16, 20]))) if rng.random() < 0.3 else rb(rng.choice([0, 1, 15, 16, 17, 30]))
+                    st_ = rec.call_obj(inst, oid, "wrap_enc", m)
+                    if st_ is None:
+                        ok = False
+                    else:
+                        streams.append((key, st_, m))
+            if not ok:
+                break
+        if ok:                        # finally every object decrypts a stream made under its key (by any object)
+            for oid in sorted(live):
+                inst, key = live[oid]
+                mine = [t for t in streams if t[0] == key]
+                if mine:
+                    rec.call_obj(inst, oid, "wrap_dec", rng.choice(mine)[1])
+        stats["calls"] += sum(1 for e in rec.log if e["a"] == "Call")
+        stats["object_histories"] += 1
+        add(f"objects:{hi}:{len(live)}objs", "call", rec.log, fn="wrap_history", keylen=len(k_a), blocks=rec.blocks - b0,
+            len=len(rec.log), binding=bname, where="patch_pypdf_fallback_aes:_cryptaes_init / _cryptaes_encrypt / _cryptaes_decrypt")
 
     # ---- IV freshness: repeated encrypt calls, same key and message
     ivs = []
